@@ -1858,8 +1858,14 @@ impl<'arena> PrettyFormatter<'arena> {
         &self, view: ManifestParameterView<'arena>, entity: PatId,
     ) -> RcDoc<'arena> {
         let ManifestParameterView { fields, binder, definition, classifier } = view;
+        // The parser distributes `as` over a leading field name, so a named binder keeps
+        // its group: `((x = y) as T)` is not `(x = y as T)`.
+        let innermost = match &self.arena.pats[&self.transparent_pattern_group(binder)] {
+            | Pattern::Named(_) => self.pattern(binder),
+            | _ => self.annotated_pattern(binder),
+        };
         let binder = fields.iter().rev().enumerate().fold(
-            LayoutFragment::entity(binder.into(), self.annotated_pattern(binder)),
+            LayoutFragment::entity(binder.into(), innermost),
             |inner, (depth, (named, field))| {
                 let inner_last = inner.anchors.last;
                 let document = if depth == 0 {
